@@ -63,6 +63,8 @@ class Check:
         self.failures: list[str] = []
         self.known = [k for k in load_known() if k.get("property") == pid]
         self.nproc = int(os.environ.get("VERIF_NPROC", "16"))
+        self.max_signatures = 25
+        self.overflow = 0
 
     # ------------------------------------------------------------------ TLC bookkeeping
     def add_tlc(self, res: tlc.TLCResult, *, need_complete: bool = True, l1_property: str | None = None):
@@ -100,6 +102,9 @@ class Check:
                 if v["signature"] == signature:
                     v["count"] += 1
             return
+        if len(self.violations) >= self.max_signatures:
+            self.overflow += 1
+            return
         self.violations.append({"signature": signature, "what": what, "detail": detail, "count": 1})
 
     def sample(self, obj, cap: int = 6):
@@ -134,6 +139,7 @@ class Check:
             "exhaustive": bool(self.exhaustive),
             "tlc_runs": self.tlc_runs,
             "known_findings_seen": [k["signature"] for k in self.known_seen],
+            "violation_signatures_not_written": self.overflow,
             **self.extra,
         }
         ev = {
@@ -192,3 +198,18 @@ def main_wrapper(fn, pid: str):
     sys.stdout.flush()
     sys.stderr.flush()
     os._exit(code)
+
+
+def replay_generic(chk: Check, path: str):
+    """Re-run one recorded violation: the replay file carries the model text / expression text."""
+    d = json.load(open(path))
+    det = d.get("detail", {})
+    print(f"replay of {d.get('signature')}")
+    print(d.get("what", ""))
+    text = det.get("text")
+    if text:
+        print("---- model / expression text ----")
+        print(text)
+    chk.states = chk.transitions = 1
+    chk.sample({"replayed": path, "signature": d.get("signature")})
+    chk.extra["explanation"] = "single recorded case printed for manual replay"
